@@ -13,9 +13,11 @@
 (*                       scaled by 2^m).                                   *)
 (* A line is accepted iff the call succeeded, the parts are in the chain's *)
 (* units and StdlibLaws!Judge holds: Strict - they are exactly the spec's  *)
-(* Split; otherwise - the law of the property on integer-scaled data (the  *)
-(* parts add up to the original, all but the last are whole and below      *)
-(* their ratio, same sign).  Lines with exact = FALSE are outside the      *)
+(* Split; otherwise - the literal law of the property on integer-scaled    *)
+(* data (the parts add up to the original, all whole, none of the wrong    *)
+(* sign).  The check gives the strict spec only the lines whose result the *)
+(* comparator did not already classify as a lawful representation          *)
+(* difference (MODEL-DRIFT).  Lines with exact = FALSE are outside the      *)
 (* integer model; they are accepted here and judged by the comparator with *)
 (* the stated tolerance (they are counted by the check).                   *)
 (* Lines are independent: the trace position is the only state.            *)
